@@ -270,13 +270,26 @@ def run(ctx, proofs):
         "construction_mirror_compared": len(mouts),
         "construction_mirror_disagreements": len(disagreements),
         "paths_walked_by_oracle": paths,
-        "open_statements": ["ssa_construction_valid_full: for every CFG the construction mirror yields a graph that is an erasure of the input, has its phis at "
-                            "block heads, unique definitions and unmixed keys (PROVED for all graphs: C14_construction_*); that it is also accepted by the "
-                            "dominance part of ssa_check (`infos_ok`: every read names the running version on every path - Cytron et al.'s theorem for "
-                            "this renaming scheme) is established per explored definition by running the verified validator, not for all graphs"],
+        # rewritten after the second audit: the dominance half is no longer open
+        "open_statements": ["none as a Coq statement: that the output of the construction is an erasure of its input with phis at block heads, unique definitions "
+                            "and unmixed keys (C14_construction_*) AND that every read names the running version on every path from the entry (the dominance "
+                            "half, Cytron et al.'s theorem for this renaming scheme: C14_construction_paths_ok, C14_construction_read_defined_on_every_path) "
+                            "are proved for ALL graphs, and C14_construction_paths_ok_on_computed_tables discharges the dominance hypotheses for the tables "
+                            "the mirror of DominatorTree::new (C15) computes, in any HashSet iteration order. What remains is a matter of the tie, not of a "
+                            "missing proof: (1) these theorems are about the MIRROR Model.Ssa.into_ssa, not about the Rust Cfg::into_ssa; the two are tied "
+                            "per explored definition (the mirror run on the real pre-SSA graph and the real frontiers / tree, compared after canonical "
+                            "renumbering: `construction_mirror_compared` / `construction_mirror_disagreements`); (2) of the hypotheses of "
+                            "C14_construction_paths_ok, the decidable ones (ssa_dyn_pre_ok, pre_ssa_ok, children_coverb, children_treeb) ARE evaluated on every "
+                            "explored definition with the implementation's own tables (`graphs_meeting_the_hypotheses_of_the_construction_theorems`), "
+                            "while creach / children_sound / frontier_exact are NOT evaluated on the implementation's tables: they follow, by "
+                            "C14_construction_paths_ok_on_computed_tables, for the tables C15's mirror computes (that those are the implementation's tables "
+                            "is C15's per-case correspondence); (3) the implementation's own output with its own dominator tree is covered per case by the "
+                            "verified validator SsaCheck.ssa_check (sound for all graphs and all paths: `graphs_validated`, `graphs_rejected_by_validator`)"],
     })
     ctx.assumptions += ["the S-expression dump (harness/src/irdump.rs) and its OCaml reader render the implementation's graph faithfully",
-                        "construction validity is per explored definition; soundness of the validator is for all graphs and all paths"]
+                        "validity of the IMPLEMENTATION's SSA output is established per explored definition (verified validator ssa_check with the implementation's "
+                        "dominator tree, path walk, erasure check); validity of the construction MIRROR's output is proved for all graphs (C14_construction_*, "
+                        "dominance half included), the mirror being tied to Cfg::into_ssa per explored definition; soundness of the validator is for all graphs and all paths"]
 
 
 def replay(ctx, rep):
